@@ -1,13 +1,18 @@
 import Holpy.C13.Proofs
 import Holpy.C13.Goal
+import Holpy.C13.Numbering
+import Holpy.C13.Remove
+import Holpy.C13.Tactic
 /-
-C13 — property theorems about the structural model of Holpy/C13/Model.lean (numbering and
-citations of a proof state under the editing operations).  What is proved is the *citation* half
-of well-formedness and the persistence of the top-level lines under edits inside subproofs; the
-numbering half (`numberedFrom`: ids equal positions), `remove_line`, edits at top level and the
-composite `apply_tactic` are not proved here — they are covered on every run by the correspondence
-stream (the model's result and its executable `wf` verdict against the real `ProofState` after
-every recorded primitive call) and by the property oracle of harness/props/c13.py.
+C13 — property theorems about the structural model of Holpy/C13/Model.lean.
+`wf` = every line carries the id of the position it sits at (contiguous numbering at every depth)
+∧ every citation satisfies `can_depend_on` ∧ a line without subproof has no subproof lines.
+Proved: each of the five operations (`add_line_before`, `remove_line`, `set_line`, `replace_id`,
+`apply_tactic`) preserves `wf` under the precondition the code establishes for it, hence every
+sequence does; in a well-formed state every citation names an existing earlier visible line.
+For the last top-level line (the stated goal) only the four primitive edits are covered
+(`goal_preserved_partial`, under `safeRun`); `apply_tactic` as a composite and the export/import
+pair are judged by the oracle of harness/props/c13.py and the correspondence stream only.
 -/
 namespace Holpy.C13
 
@@ -47,32 +52,110 @@ theorem replace_preserves_citations (o n : IId) (hon : canDependOn o n = true) (
     (hw : citesOkList l = true) : citesOkList (replaceList o n l) = true :=
   citesOkList_replace o n hon l hw
 
-/-- Operations covered by `edits_preserve_citations_partial`. -/
-def citeSafe : Op → Prop
-  | .addLineBefore _ _ => True
-  | .setLine id _ p _ => ∀ x ∈ p, canDependOn id x = true
-  | _ => False
+theorem wf_iff (s : Proof) : wf s = true ↔
+    numberedFrom [] 0 s = true ∧ citesOkList s = true ∧ subOkList s = true := by
+  simp [wf, Bool.and_eq_true, and_assoc]
 
-/-- Every sequence of `add_line_before` / `set_line` calls (the latter with admissible citations)
-that completes keeps all citations within `can_depend_on`.  Partial: `remove_line`, `replace_id`'s
-removal and `apply_tactic` are not covered, nor is the numbering half of well-formedness
-(`edit_preserves_wf` of DESIGN.md). -/
-theorem edits_preserve_citations_partial : ∀ (ops : List Op) (s s' : Proof), citesOkList s = true →
-    (∀ op ∈ ops, citeSafe op) → run s ops = .ok s' → citesOkList s' = true
+/-- `add_line_before(id, n)` before an existing line preserves well-formedness: every line still
+carries the id of the position it sits at (contiguous numbering at every depth), every citation
+still satisfies `can_depend_on`. -/
+theorem add_line_preserves_wf (s s' : Proof) (id : IId) (n : Nat) (cur : Item) (hw : wf s = true)
+    (hex : findItem s id = some cur) (h : addLineBefore s id n = .ok s') : wf s' = true := by
+  rw [wf_iff] at hw ⊢
+  exact ⟨numbered_addLineBefore s s' id n cur hw.1 hex h, citesOk_addLineBefore s s' id n hw.2.1 h,
+    subOk_addLineBefore s s' id n hw.2.2 h⟩
+
+/-- `set_line(id, …)` with admissible citations preserves well-formedness. -/
+theorem set_line_preserves_wf (s s' : Proof) (id : IId) (r : Nat) (p : List IId) (th : Option Seq)
+    (hw : wf s = true) (hp : ∀ x ∈ p, canDependOn id x = true)
+    (h : setLine s id r p th = .ok s') : wf s' = true := by
+  rw [wf_iff] at hw ⊢
+  exact ⟨numbered_setLine s s' id r p th hw.1 h, citesOk_setLine s s' id r p th hw.2.1 hp h,
+    subOk_setLine s s' id r p th hw.2.2 h⟩
+
+/-- `remove_line(id)` of an existing line that no line of its proof (subproofs included) cites
+preserves well-formedness (lines of other proofs cannot cite it: `wf_citation_resolves`). -/
+theorem remove_line_preserves_wf (s s' : Proof) (id : IId) (cur : Item) (hw : wf s = true)
+    (hex : findItem s id = some cur)
+    (hnc : ∀ l, getAt id.dropLast s = some l → notCitedList id l = true)
+    (h : removeLine s id = .ok s') : wf s' = true := by
+  rw [wf_iff] at hw ⊢
+  exact ⟨numbered_removeLine s s' id cur hw.1 hex h, citesOk_removeLine s s' id hw.2.1 hnc h,
+    subOk_removeLine s s' id hw.2.2 h⟩
+
+/-- `replace_id(old, new)`: re-pointing the citations of an existing line `old` to a line `new`
+visible from it (what `find_goal` returns) and removing `old` preserves well-formedness. -/
+theorem replace_id_preserves_wf (s s' : Proof) (old new : IId) (cur : Item) (hw : wf s = true)
+    (hex : findItem s old = some cur) (hvis : canDependOn old new = true)
+    (h : replaceId s old new = .ok s') : wf s' = true :=
+  wf_replaceId s s' old new cur hw hex hvis h
+
+/-- In a well-formed state every citation of every line resolves: the line found at position `q`
+carries id `q`, each of its citations `p` satisfies `can_depend_on(q, p)` and a line exists at `p`
+(an earlier line of the same proof or of an enclosing one). -/
+theorem wf_citation_resolves (s : Proof) (q : IId) (it : Item) (hw : wf s = true)
+    (hq : findItem s q = some it) :
+    it.id = q ∧ ∀ p ∈ it.prevs, canDependOn q p = true ∧ ∃ it', findItem s p = some it' := by
+  rw [wf_iff] at hw
+  have hid : it.id = q := by simpa using numbered_findItem q [] s it hw.1 hq
+  refine ⟨hid, fun p hp => ?_⟩
+  have hc := citesOk_findItem q s it hw.2.1 hq p hp
+  rw [hid] at hc
+  exact ⟨hc, visible_line_exists p q s it hq hc⟩
+
+/-- `apply_tactic(id, …)` as a whole — insertion of the lines, placement of the exported lines,
+replacement of gaps that an earlier visible line proves, trivial closing — preserves
+well-formedness, for exported lines without subproofs whose citations are admissible for the ids
+they carry (`shapeOk`; compared with every captured `ProofTerm.export` by the harness). -/
+theorem apply_tactic_preserves_wf (s s' : Proof) (id : IId) (new : List NewLine) (hw : wf s = true)
+    (hshape : shapeOk new) (h : applyTactic s id new = .ok s') : wf s' = true :=
+  wf_applyTactic s s' id new hw hshape h
+
+/-- The preconditions the code establishes before each operation: insertion before an existing
+line; a line set with citations that satisfy `can_depend_on` (what `apply_method` asserts of the
+selected facts); removal of an existing line that no line of its proof cites; replacement of an
+existing line by a line visible from it (what `find_goal` returns); a tactic whose exported lines
+are `shapeOk`. -/
+def wfSafe (s : Proof) : Op → Prop
+  | .addLineBefore id _ => ∃ cur, findItem s id = some cur
+  | .setLine id _ p _ => ∀ x ∈ p, canDependOn id x = true
+  | .removeLine id => (∃ cur, findItem s id = some cur) ∧
+      ∀ l, getAt id.dropLast s = some l → notCitedList id l = true
+  | .replaceId old new => (∃ cur, findItem s old = some cur) ∧ canDependOn old new = true
+  | .applyTactic _ new => shapeOk new
+
+def wfSafeRun : Proof → List Op → Prop
+  | _, [] => True
+  | s, op :: ops => wfSafe s op ∧ ∀ s1, step s op = .ok s1 → wfSafeRun s1 ops
+
+/-- Each of the five operations preserves well-formedness (ids equal positions at every depth;
+every citation satisfies `can_depend_on`, hence — `wf_citation_resolves` — names an existing
+earlier visible line) under the precondition the code establishes for it. -/
+theorem edit_preserves_wf (s s' : Proof) (op : Op) (hw : wf s = true) (hop : wfSafe s op)
+    (h : step s op = .ok s') : wf s' = true := by
+  cases op with
+  | addLineBefore id n =>
+    obtain ⟨cur, hc⟩ := hop
+    exact add_line_preserves_wf s s' id n cur hw hc h
+  | setLine id r p th => exact set_line_preserves_wf s s' id r p th hw hop h
+  | removeLine id =>
+    obtain ⟨⟨cur, hc⟩, hnc⟩ := hop
+    exact remove_line_preserves_wf s s' id cur hw hc hnc h
+  | replaceId o n =>
+    obtain ⟨⟨cur, hc⟩, hv⟩ := hop
+    exact replace_id_preserves_wf s s' o n cur hw hc hv h
+  | applyTactic id new => exact apply_tactic_preserves_wf s s' id new hw hop h
+
+/-- By induction, every completed sequence of operations that meet their preconditions keeps the
+state well-formed. -/
+theorem edits_preserve_wf : ∀ (ops : List Op) (s s' : Proof), wf s = true →
+    wfSafeRun s ops → run s ops = .ok s' → wf s' = true
   | [], s, s', hw, _, h => by simp [run] at h; subst h; exact hw
   | op :: ops, s, s', hw, hs, h => by
     simp only [run] at h
     split at h
     · rename_i s1 h1
-      have hop := hs op (by simp)
-      have hw1 : citesOkList s1 = true := by
-        cases op with
-        | addLineBefore id n => exact citesOk_addLineBefore s s1 id n hw h1
-        | setLine id r p th => exact citesOk_setLine s s1 id r p th hw hop h1
-        | removeLine id => exact absurd hop (by simp [citeSafe])
-        | replaceId o n => exact absurd hop (by simp [citeSafe])
-        | applyTactic id new => exact absurd hop (by simp [citeSafe])
-      exact edits_preserve_citations_partial ops s1 s' hw1 (fun o ho => hs o (by simp [ho])) h
+      exact edits_preserve_wf ops s1 s' (edit_preserves_wf s s1 op hw hs.1 h1) (hs.2 s1 h1) h
     · simp at h
 
 /-- An edit whose target lies inside a subproof (`add_line_before`, `remove_line`, `set_line` with
@@ -102,11 +185,12 @@ theorem goal_preserved_nested_partial (s s' : Proof) (i j : Nat) (rest : List Na
     · simp at h
     · rw [hrest] at h; exact sig_modifyAt_nested _ _ _ _ _ h
 
-/-- Along every completed sequence of `add_line_before` / `remove_line` / `set_line` calls whose
-targets are existing lines and never the last top-level line itself (`safeRun`: what the methods
-establish — they insert before existing lines and remove/overwrite gaps or lines they inserted,
-while the last line is the `intros` line), the last top-level line keeps its rule and its stated
-sequent.  Partial: `replace_id` and the composite `apply_tactic` are not covered by the theorem. -/
+/-- Along every completed sequence of `add_line_before` / `remove_line` / `set_line` / `replace_id`
+calls whose targets are existing lines and never the last top-level line itself (`safeRun`), the
+last top-level line keeps its rule and its stated sequent.  Partial: this only says that edits
+which do not target the last line leave it alone; that the methods meet `safeRun` (they remove and
+overwrite gaps and lines they inserted, the last line is the `intros` line) and that the composite
+`apply_tactic` keeps the last line is not proved (oracle + correspondence only). -/
 theorem goal_preserved_partial (ops : List Op) (s s' : Proof) (hs : safeRun s ops) (h : run s ops = .ok s') :
     (s'.getLast?).map sigOf = (s.getLast?).map sigOf :=
   goal_preserved_run ops s s' hs h
@@ -124,8 +208,29 @@ example : (match run s1 [.addLineBefore [0, 1] 2, .setLine [0, 1] 6 [[0, 0]] (so
     | .ok s' => wf s' && (s'.map sigOf == s1.map sigOf) && citesOkList s'
     | .error _ => false) = true := by decide
 
-example : citeSafe (.setLine [0, 1] 6 [[0, 0]] (some ⟨9, [2]⟩)) := by
-  simp [citeSafe]; decide
+example : shapeOk [⟨.mk [0, 1] ruleSorry [] (some ⟨7, [2]⟩) false [], false⟩,
+    ⟨.mk [0, 2] 9 [[0, 0], [0, 1]] (some ⟨3, [2]⟩) false [], false⟩] := by
+  intro l hl
+  simp at hl
+  rcases hl with h | h <;> subst h <;> simp [Item.hasSub, Item.sub, Item.prevs, Item.id] <;> decide
+
+example : (match applyTactic s1 [0, 1] [⟨.mk [0, 1] ruleSorry [] (some ⟨7, [2]⟩) false [], false⟩,
+      ⟨.mk [0, 2] 9 [[0, 0], [0, 1]] (some ⟨3, [2]⟩) false [], false⟩] with
+    | .ok s' => wf s' && (sorrysList s' == [some ⟨7, [2]⟩])
+    | .error _ => false) = true := by decide
+
+example : wfSafeRun s1 [.addLineBefore [1] 1, .setLine [1] 6 [[0]] (some ⟨9, []⟩)] := by
+  refine ⟨⟨_, rfl⟩, fun a _ => ⟨?_, fun _ _ => trivial⟩⟩
+  intro x hx
+  simp at hx
+  subst hx
+  decide
+
+example : (match replaceId s1 [0, 1] [0, 0] with
+    | .ok s' => wf s' && s'.length == 2 && canDependOn [0, 1] [0, 0]
+    | .error _ => false) = true := by decide
+
+example : ∃ it, findItem s1 [0, 2] = some it ∧ it.prevs = [[0, 0], [0, 1]] := ⟨_, rfl, rfl⟩
 
 example : safeRun s1 [.addLineBefore [1] 1, .addLineBefore [0, 1] 1, .removeLine [0, 1]] := by
   simp [safeRun, goalSafe, targetOk, s1]
